@@ -54,13 +54,13 @@ func TestMain(m *testing.M) {
 
 // CrashCase: a download on the real file storage that is killed at a generated point, then restarted.
 type CrashCase struct {
-	L         model.Layout `json:"layout"`
-	Point     string       `json:"point"` // write-entry | write-exit | after-complete | after-stop | after-verify
-	K         int          `json:"k"`     // which storage write (0-based) for the write-* points; for after-stop: stop after K writes
-	DelayMs   int          `json:"delay_ms"`
-	ResumeMs  int          `json:"resume_write_interval_ms"`
-	Delete    []int        `json:"delete_files"` // indexes (mod number of data files) of files removed before the restart
-	WriteMs   int          `json:"write_delay_ms"`
+	L        model.Layout `json:"layout"`
+	Point    string       `json:"point"` // write-entry | write-exit | after-complete | after-stop | after-verify
+	K        int          `json:"k"`     // which storage write (0-based) for the write-* points; for after-stop: stop after K writes
+	DelayMs  int          `json:"delay_ms"`
+	ResumeMs int          `json:"resume_write_interval_ms"`
+	Delete   []int        `json:"delete_files"` // indexes (mod number of data files) of files removed before the restart
+	WriteMs  int          `json:"write_delay_ms"`
 }
 
 func genCrash(t *rapid.T) CrashCase {
@@ -233,14 +233,14 @@ func downloadRole(c CrashCase, dir string) {
 }
 
 type restartReport struct {
-	Found    bool   `json:"found"`
-	Status   string `json:"status"`
-	Have     int    `json:"have"`
-	Bits     []int  `json:"bits"` // pieces announced to a probing peer (bitfield / have / have-all)
-	Probed   bool   `json:"probed"`
-	SyncOpen int    `json:"sync_open"`   // data files open with O_SYNC / O_DSYNC
-	PlainOpen int   `json:"plain_open"`  // data files open without
-	Err      string `json:"err,omitempty"`
+	Found     bool   `json:"found"`
+	Status    string `json:"status"`
+	Have      int    `json:"have"`
+	Bits      []int  `json:"bits"` // pieces announced to a probing peer (bitfield / have / have-all)
+	Probed    bool   `json:"probed"`
+	SyncOpen  int    `json:"sync_open"`  // data files open with O_SYNC / O_DSYNC
+	PlainOpen int    `json:"plain_open"` // data files open without
+	Err       string `json:"err,omitempty"`
 }
 
 // restartRole runs in a child: a fresh session on the same database and directory, no peers.
